@@ -5,10 +5,10 @@ import (
 	"io"
 	"net"
 	"net/url"
-	"time"
 	"strconv"
 	"strings"
 	"sync"
+	"time"
 
 	backend "github.com/bfenetworks/bfe/bfe_balance/backend"
 	"github.com/bfenetworks/bfe/bfe_basic"
